@@ -1666,6 +1666,114 @@ pub fn perf_case(fam: &str, d: usize) -> String {
     }
 }
 
+/// Flat families (C18): one construct repeated `n` times at a single level.  Work proportional to the
+/// size of the source means time(4n) is about 4 x time(n); a per-item pass over the whole sequence
+/// (or over the whole output) makes it 16 x.
+pub const FLAT_FAMILIES: &[&str] = &[
+    "stmts", "stmts-blank", "args-blank", "array-lines", "dict-blank", "paragraphs", "prose-lines", "list-items", "enum-blank",
+    "comments", "content-blocks", "equations", "lets-markup", "imports", "raw-lines", "strings",
+];
+pub fn flat_case(fam: &str, n: usize) -> String {
+    let mut s = String::new();
+    match fam {
+        "stmts" | "stmts-blank" => {
+            s += "#let f() = {\n";
+            for i in 0..n {
+                s += &format!("  let v{} = calc.max({}, {} + 1)\n", i, i, i);
+                if fam == "stmts-blank" {
+                    s += "\n";
+                }
+            }
+            s += "}\n";
+        }
+        "args-blank" => {
+            s += "#f(\n";
+            for i in 0..n {
+                s += &format!("  g({}, x),\n\n", i);
+            }
+            s += ")\n";
+        }
+        "array-lines" => {
+            s += "#let a = (\n";
+            for i in 0..n {
+                s += &format!("  {},   \n", i);
+            }
+            s += ")\n";
+        }
+        "dict-blank" => {
+            s += "#let d = (\n";
+            for i in 0..n {
+                s += &format!("  k{}: {},\n\n", i, i);
+            }
+            s += ")\n";
+        }
+        "paragraphs" => {
+            for i in 0..n {
+                s += &format!("Paragraph {} with some   words in it.  \n\n", i);
+            }
+        }
+        "prose-lines" => {
+            for i in 0..n {
+                s += &format!("line {} of one long paragraph\n", i);
+            }
+        }
+        "list-items" => {
+            for i in 0..n {
+                s += &format!("- item {}\n", i);
+            }
+        }
+        "enum-blank" => {
+            for i in 0..n {
+                s += &format!("+ item {}\n  more\n\n", i);
+            }
+        }
+        "comments" => {
+            s += "#{\n";
+            for i in 0..n {
+                s += &format!("  // comment {}\n  /* b */ x{}\n", i, i);
+            }
+            s += "}\n";
+        }
+        "content-blocks" => {
+            s += "#f";
+            for i in 0..n {
+                s += &format!("[a{}]", i);
+            }
+            s += "\n";
+        }
+        "equations" => {
+            for i in 0..n {
+                s += &format!("$ x_{} + y $\n\n", i);
+            }
+        }
+        "lets-markup" => {
+            for i in 0..n {
+                s += &format!("#let v{} = (a: {}, b: f(x))\n", i, i);
+            }
+        }
+        "imports" => {
+            for i in 0..n {
+                s += &format!("#import \"m{}.typ\": c, b, a\n", i);
+            }
+        }
+        "raw-lines" => {
+            s += "#[\n  ```\n";
+            for i in 0..n {
+                s += &format!("  line {}  \n\n", i);
+            }
+            s += "  ```\n]\n";
+        }
+        _ => {
+            s += "#(\n";
+            for i in 0..n {
+                s += &format!("  \"s{}  \",\n", i);
+            }
+            s += ")\n";
+        }
+    }
+    s
+}
+
 // ---------------------------------------------------------------------------------------------
 // G-mut: token-level mutations of valid documents (fixtures, generated documents) that still
 // parse without errors.  Reaches the corners between productions the grammar does not write
